@@ -92,13 +92,16 @@ WedgeRobust(a0, o, a2, b0, b2) ==
 (* Model-level laws (checked by TLC on every enumerated tuple).            *)
 (* SA, SB, SAc are the piece sets of A, B and of the reversed chain of A.  *)
 (***************************************************************************)
+\* laws of one wedge A = (i0, i2)
+WedgeLawsA(SA, SAc, i0, i2, n) ==
+    \* a wedge is neither empty nor full, and reversing the chain complements it
+    /\ 2 * (i0 - 1) \in SA /\ 2 * (i2 - 1) \notin SA
+    /\ SAc = AllPieces(n) \ SA
+    /\ RelOfSets(SA, SA) = WEquals
+    /\ RelOfSets(SA, SAc) = WIsDisjoint
+\* laws of a pair of wedges (rel, con, int are bound once: TLC re-evaluates LET definitions at every use)
 WedgeLawsOn(SA, SB, SAc, i0, i2, j0, j2, n) ==
-    LET rel == RelOfSets(SA, SB)
-        con == SB \subseteq SA
-        int == SA \cap SB # {}
-    IN  \* a wedge is neither empty nor full, and reversing the chain complements it
-        /\ 2 * (i0 - 1) \in SA /\ 2 * (i2 - 1) \notin SA
-        /\ SAc = AllPieces(n) \ SA
+    \A rel \in {RelOfSets(SA, SB)}, con \in {SB \subseteq SA}, int \in {SA \cap SB # {}} :
         \* equal as sets iff given by the same arms
         /\ (rel = WEquals) <=> (i0 = j0 /\ i2 = j2)
         \* the two booleans are the documented projections of the relation
@@ -109,15 +112,19 @@ WedgeLawsOn(SA, SB, SAc, i0, i2, j0, j2, n) ==
         \* A contains B iff the complement of A misses B
         /\ con <=> (SAc \cap SB = {})
         \* the six orderings listed in wedge_relations.go (all four arms distinct)
-        /\ Cardinality({i0, i2, j0, j2}) = 4 =>
+        /\ (i0 # j0 /\ i0 # j2 /\ i2 # j0 /\ i2 # j2) =>
             /\ Cyc4Pos(i2, j2, j0, i0, n) => rel = WProperlyContains
             /\ Cyc4Pos(i2, i0, j0, j2, n) => rel = WIsProperlyContained
             /\ Cyc4Pos(i2, i0, j2, j0, n) => rel = WIsDisjoint
             /\ (Cyc4Pos(i2, j0, i0, j2, n) \/ Cyc4Pos(i2, j2, i0, j0, n) \/ Cyc4Pos(i2, j0, j2, i0, n))
                     => rel = WProperlyOverlaps
+            /\ Cyc4Pos(i2, j2, j0, i0, n) \/ Cyc4Pos(i2, i0, j0, j2, n) \/ Cyc4Pos(i2, i0, j2, j0, n)
+                    \/ Cyc4Pos(i2, j0, i0, j2, n) \/ Cyc4Pos(i2, j2, i0, j0, n) \/ Cyc4Pos(i2, j0, j2, i0, n)
         \* shared arms, as discussed in the comments of the Go code
         /\ (i0 = j0 /\ i2 # j2) => rel \in {WProperlyContains, WIsProperlyContained}
         /\ (i2 = j2 /\ i0 # j0) => rel \in {WProperlyContains, WIsProperlyContained}
         /\ (i0 = j2 /\ i2 = j0) => rel = WIsDisjoint        \* B is the complement of A
+        /\ (i0 = j2 /\ i2 # j0) => rel \in {WIsDisjoint, WProperlyOverlaps}
+        /\ (i2 = j0 /\ i0 # j2) => rel \in {WIsDisjoint, WProperlyOverlaps}
 
 =============================================================================
